@@ -52,6 +52,12 @@ CHECKS = {
     "C14": ("model_checking", "explicit-state breadth-first search over operation histories on real Network objects, states de-duplicated by a canonical key, reference model compared on every transition",
             "BFS over all histories of a 24-operation menu (add x7, add from file, remove by index/list/instance/instances, three allowed lists, two required lists, de-duplicate, append depletion/desorption, reindex) to depth 3 (quick) / 5 (thorough) and of a reduced 10-operation menu to depth 7; every transition calls the real method on a fresh Network replayed from the history and compares reaction list, species, sources/sinks, where_species, allowed-filter and index macros (vs a one-shot construction) with a boring reference model. Plus allowed-setter vs constructor on all add sequences <=3 and the extend command on 3 inputs x 8 flag sets x 5 species options.",
             "Canonical key includes the cached species sets, so merged states have equal futures. Reaction identity classes of the pool are stated in the evidence.", "DESIGN.md §2 C14"),
+    "C15": ("exploration", "bounded-exhaustive enumeration of reaction lists x comparison modes; O(n^2) pairwise reference",
+            "All lists of length <=5 (quick <=4) over a pool of 8 reactions (two bases; permuted reactants, permuted products, other window, other type, unknown type) x modes default/brief/minimal/short: reported indices, reported reactions and first members equal the pairwise reference; removing the reported reactions leaves one member per class and a second call reports nothing.",
+            "Lists on which the default-mode relation is not transitive (UNKNOWN type bridging two known types) are enumerated but not judged.", "DESIGN.md §2 C15"),
+    "C16": ("exploration", "bounded-exhaustive enumeration of species sets; exact rational evaluation of the emitted renormalisation text and exact solve",
+            "All species sets {H} + up to 4 of 12 others (ions, isotopologues, multi-element molecules, ice, grains, electrons) x positive abundance vectors x reference ratios: InitRenorm, RenormAbundance and GetElementAbund text is read into exact polynomials, the linear system is solved over Q, and afterwards every element/H-nuclei ratio equals the reference, electrons are untouched and matching ratios give the identity; a literal division by zero or a non-C factor is a violation.",
+            "Exact arithmetic replaces the LU solve of SUNDIALS/uBLAS (equal up to rounding). Sets without atomic H are outside the generated Renorm (#ifdef IDX_ELEM_H).", "DESIGN.md §2 C16"),
 }
 
 NOT_YET = {
